@@ -128,7 +128,7 @@ impl MonitorSet {
                         lt += 1;
                     }
                     if post.term_at(m.index) != Some(lt) && !(m.index + 1 < post.first) {
-                        self.fail("append-anchor", format!("leader {} of term {} emitted MsgAppend to {} anchored at (index {}, term {}) but its log has term {:?} there", id, post.term, m.to, m.index, lt, post.term_at(m.index)));
+                        self.fail("append-anchor", format!("leader {} of term {} emitted MsgAppend to {} anchored at (index {}, term {}) but its log (first index {}, boundary term {}, last {}) has term {:?} there", id, post.term, m.to, m.index, lt, post.first, post.bterm, post.last_index, post.term_at(m.index)));
                         return;
                     }
                     for (k, e) in m.entries.iter().enumerate() {
